@@ -758,7 +758,8 @@ def _run_property(prop_id, mod, tier, seed, only=None, jobs=None):
         'wall_s': round(time.time() - t0, 2),
         'violations': len(violations),
     }
-    if only is None and not harness_errors:
+    # sensitivity runs against a scratch copy (VF_REPO set by tools/) must not overwrite the evidence of the real tree
+    if only is None and not harness_errors and os.path.realpath(os.environ.get('VF_REPO', '/repo')) == '/repo':
         os.makedirs(os.path.join(HERE, 'evidence'), exist_ok=True)
         with open(os.path.join(HERE, 'evidence', prop_id + '.json'), 'w') as fh:
             json.dump(ev, fh, indent=1, default=str)
